@@ -25,6 +25,7 @@ type Crash struct {
 	Fatal string `json:"fatal"` // the "fatal error: ..." / "panic: ..." line
 	Frame string `json:"frame"` // first non-runtime function of the dying goroutine
 	Log   string `json:"log"`   // head of the child's stderr
+	full  string // more of it (goroutine dumps)
 }
 
 type Child struct {
@@ -33,8 +34,9 @@ type Child struct {
 	in      io.WriteCloser
 	out     *bufio.Reader
 	errPath string
-	Spawns  int
-	Timeout time.Duration
+	Spawns   int
+	Timeout  time.Duration
+	CPULimit float64 // seconds
 }
 
 const childEnv = "VERIF_CHILD"
@@ -55,7 +57,7 @@ func (c *Child) start() error {
 	}
 	c.errPath = f.Name()
 	cmd := exec.Command(os.Args[0], "-test.run", "^TestVerif_Child$", "-test.timeout", "0")
-	cmd.Env = append(os.Environ(), childEnv+"="+c.kind, "VERIF_OUT=", "GORACE=")
+	cmd.Env = append(os.Environ(), childEnv+"="+c.kind, "VERIF_OUT=", "GORACE=", "GOTRACEBACK=crash")
 	cmd.Stderr = f
 	in, err := cmd.StdinPipe()
 	if err != nil {
@@ -123,6 +125,10 @@ func parseCrash(log string) *Crash {
 			break
 		}
 	}
+	cr.full = log
+	if len(cr.full) > 1<<20 {
+		cr.full = cr.full[:1<<20]
+	}
 	if len(log) > 4000 {
 		log = log[:4000]
 	}
@@ -149,19 +155,91 @@ func (c *Child) Probe(payload []byte) (string, *Crash, error) {
 		s, err := c.out.ReadString('\n')
 		ch <- res{s, err}
 	}()
-	select {
-	case r := <-ch:
-		if r.err != nil {
-			return "", c.died("read"), nil
+	// While waiting, watch the CPU time the child burns on this one input: a decoder that spins
+	// is decided on CPU seconds (not on the wall clock, which only leads to "timeout" =
+	// inconclusive on a loaded machine).
+	cpu0 := procCPU(c.cmd.Process.Pid)
+	deadline := time.After(c.Timeout)
+	tick := time.NewTicker(200 * time.Millisecond)
+	defer tick.Stop()
+	for {
+		select {
+		case r := <-ch:
+			if r.err != nil {
+				return "", c.died("read"), nil
+			}
+			return strings.TrimSpace(r.s), nil, nil
+		case <-tick.C:
+			if cpu := procCPU(c.cmd.Process.Pid); cpu0 >= 0 && cpu-cpu0 >= c.cpuLimit() {
+				c.cmd.Process.Signal(syscall.SIGQUIT)
+				time.Sleep(300 * time.Millisecond)
+				cr := c.died("cpu")
+				cr.Kind = "no-termination"
+				cr.Frame = runningFrame(cr.full)
+				cr.Fatal = fmt.Sprintf("the call used %.1f s of CPU on one input without returning", cpu-cpu0)
+				return "", cr, nil
+			}
+		case <-deadline:
+			c.cmd.Process.Signal(syscall.SIGQUIT)
+			time.Sleep(300 * time.Millisecond)
+			cr := c.died("timeout")
+			cr.Kind = "timeout"
+			return "", cr, nil
 		}
-		return strings.TrimSpace(r.s), nil, nil
-	case <-time.After(c.Timeout):
-		c.cmd.Process.Signal(syscall.SIGQUIT)
-		time.Sleep(300 * time.Millisecond)
-		cr := c.died("timeout")
-		cr.Kind = "timeout"
-		return "", cr, nil
 	}
+}
+
+// CPULimit is the CPU time one probe may use before it counts as not terminating (default 5 s).
+func (c *Child) cpuLimit() float64 {
+	if c.CPULimit > 0 {
+		return c.CPULimit
+	}
+	return 5
+}
+
+// procCPU returns user+system CPU seconds of a process, -1 if unknown.
+func procCPU(pid int) float64 {
+	b, err := os.ReadFile(fmt.Sprintf("/proc/%d/stat", pid))
+	if err != nil {
+		return -1
+	}
+	s := string(b)
+	i := strings.LastIndex(s, ")")
+	if i < 0 {
+		return -1
+	}
+	f := strings.Fields(s[i+1:])
+	if len(f) < 13 {
+		return -1
+	}
+	var ut, st float64
+	fmt.Sscanf(f[11], "%f", &ut)
+	fmt.Sscanf(f[12], "%f", &st)
+	return (ut + st) / 100
+}
+
+// runningFrame extracts, from a SIGQUIT goroutine dump, the innermost non-runtime function of a
+// goroutine that was running.
+func runningFrame(log string) string {
+	for _, g := range strings.Split(log, "\n\n") {
+		lines := strings.Split(strings.TrimSpace(g), "\n")
+		if len(lines) == 0 || !strings.HasPrefix(lines[0], "goroutine ") || !strings.Contains(lines[0], "[running") {
+			continue
+		}
+		for _, l := range lines[1:] {
+			m := frameRe.FindStringSubmatch(strings.TrimSpace(l))
+			if m == nil {
+				continue
+			}
+			fn := m[1]
+			if strings.HasPrefix(fn, "runtime.") || strings.HasPrefix(fn, "testing.") || strings.HasPrefix(fn, "syscall.") ||
+				strings.HasPrefix(fn, "internal/") || strings.HasPrefix(fn, "os.") || strings.Contains(fn, "internal/verifkit.") {
+				continue
+			}
+			return fn
+		}
+	}
+	return "?"
 }
 
 func (c *Child) died(how string) *Crash {
